@@ -4,7 +4,7 @@
     [rsum f n] = f 0 + ... + f (n-1); [dlt] = Kronecker delta; [ment M i j] = entry (i,j) of a list-of-rows matrix.
     All statements are over the reals, for every dimension. *)
 From Coq Require Import Reals List.
-From LP Require Import Num NumR C15_Model C15_Proofs C15_Proofs_QR C15_Proofs_Scale.
+From LP Require Import Num NumR C15_Model C15_Proofs C15_Proofs_QR C15_Proofs_Scale C15_Proofs_Iter.
 Import ListNotations.
 Local Open Scope R_scope.
 
@@ -210,3 +210,44 @@ Theorem C15_householder_scale_free (m : list (list R)) (c : R) : 0 < c ->
   ment ROps (householder ROps (mscale c m)) i j = ment ROps (householder ROps m) i j.
 Proof. exact (householder_scale_free m c). Qed.
 Print Assumptions C15_householder_scale_free.
+
+(** ** "Eigensystem/Eigenvectors ... return, for each eigenvalue, a unit vector v ... with M*v equal to lambda*v" — what the loop of
+    Find_Eigenvector_Rayleigh can reach from its fixed start vector (1, 1/2, .., 1/n) / |..|, over the reals.
+    (1) Started at a unit vector that is an eigenvector of M_inv (eigenvalue mu <> 0) the loop returns the start vector after the first
+    step (the change is 0 < 1e-15), for every number of allowed steps: if the start vector is an eigenvector of M, the same pair is
+    returned for every eigenvalue and the clause "for each eigenvalue" fails (known finding K-C15-5; checks/C15.py puts this input class
+    under the signature suffix start-vector-eigenvector). *)
+Theorem C15_inverse_iteration_stays_at_eigen_start (minv : list (list R)) (b : list R) (mu : R) (k : nat) :
+  vdot ROps b b = 1 -> mu <> 0 -> mvec ROps minv b = map (Rmult mu) b ->
+  inverse_iteration ROps (S k) minv b = b.
+Proof. exact (inverse_iteration_stays_at_eigen_start minv b mu k). Qed.
+Print Assumptions C15_inverse_iteration_stays_at_eigen_start.
+
+(** the same for the whole call: [shifted m ev] is the matrix M - (ev + 1e-8 |M|) 1 that the code inverts *)
+Theorem C15_rayleigh_returns_start_vector (m minv : list (list R)) (ev mu : R) :
+  (0 < nrows m)%nat -> inverse ROps (shifted m ev) = Ok minv -> mu <> 0 ->
+  mvec ROps minv (start_vector ROps (nrows m)) = map (Rmult mu) (start_vector ROps (nrows m)) ->
+  find_eigenvector_rayleigh ROps m ev =
+  Ok (vdot ROps (start_vector ROps (nrows m)) (mvec ROps m (start_vector ROps (nrows m))), start_vector ROps (nrows m)).
+Proof. exact (rayleigh_returns_start_vector m minv ev mu). Qed.
+Print Assumptions C15_rayleigh_returns_start_vector.
+
+(** (2) For a symmetric M_inv every iterate stays orthogonal to an eigenvector v of M_inv that the start vector is orthogonal to, for
+    every number of steps: in exact arithmetic the loop never returns v; the library reaches such eigenvectors (e.g. (1, -2, 0, ..))
+    through rounding noise only, which takes more than two steps.  Not a theorem: that the noise always suffices. *)
+Theorem C15_inverse_iteration_keeps_orthogonality n (minv : list (list R)) (v : list R) (mu : R) :
+  wf n minv -> (forall i j, (i < n)%nat -> (j < n)%nat -> ment ROps minv i j = ment ROps minv j i) ->
+  length v = n -> mvec ROps minv v = map (Rmult mu) v ->
+  forall k b, length b = n -> vdot ROps v b = 0 ->
+  length (inverse_iteration ROps k minv b) = n /\ vdot ROps v (inverse_iteration ROps k minv b) = 0.
+Proof. exact (inverse_iteration_keeps_orthogonality n minv v mu). Qed.
+Print Assumptions C15_inverse_iteration_keeps_orthogonality.
+
+(** non-vacuity: M_inv = diag(2, 3), start vector e1 (an eigenvector), e2 orthogonal to it *)
+Theorem C15_iteration_hypotheses_satisfiable :
+  let minv := [[2; 0]; [0; 3]] in
+  wf 2 minv /\ (forall i j, (i < 2)%nat -> (j < 2)%nat -> ment ROps minv i j = ment ROps minv j i) /\
+  vdot ROps [1; 0] [1; 0] = 1 /\ mvec ROps minv [1; 0] = map (Rmult 2) [1; 0] /\
+  mvec ROps minv [0; 1] = map (Rmult 3) [0; 1] /\ vdot ROps [0; 1] [1; 0] = 0.
+Proof. exact ex_iter_hyp. Qed.
+Print Assumptions C15_iteration_hypotheses_satisfiable.
